@@ -1,6 +1,7 @@
 // native replay oracle for C17: WKT output against a model of the coordinate sequence (duplicates, undefined locations, rings), double2string
 #include <osmium/geom/wkt.hpp>
 #include <osmium/geom/wkb.hpp>
+#include <osmium/geom/geojson.hpp>
 #include <osmium/builder/attr.hpp>
 #include <osmium/geom/factory.hpp>
 #include <osmium/builder/osm_object_builder.hpp>
@@ -90,7 +91,30 @@ static int check_wkb_reuse() {
     return 0;
 }
 
+// the same for the text formats: a WKT / GeoJSON factory used again after a geometry failed half way
+template <typename TFactory> static int check_text_reuse_with(const char* what) {
+    using namespace osmium::builder::attr;
+    osmium::memory::Buffer buf{10240};
+    const auto bad_line = osmium::builder::add_way(buf, _id(1), _nodes({{1, {1.0, 1.0}}}));
+    const auto good_line = osmium::builder::add_way(buf, _id(2), _nodes({{1, {1.0, 1.0}}, {2, {2.0, 2.0}}, {3, {3.0, 1.0}}}));
+    const auto open_ring = osmium::builder::add_way(buf, _id(3), _nodes({{1, {0.0, 0.0}}, {2, {1.0, 0.0}}, {3, {1.0, 1.0}}}));
+    const auto ring = osmium::builder::add_way(buf, _id(4), _nodes({{1, {0.0, 0.0}}, {2, {1.0, 0.0}}, {3, {1.0, 1.0}}, {1, {0.0, 0.0}}}));
+    TFactory used; TFactory fresh;
+    try { (void)used.create_linestring(buf.get<osmium::Way>(bad_line)); } catch (const std::exception&) {}
+    if (used.create_linestring(buf.get<osmium::Way>(good_line)) != fresh.create_linestring(buf.get<osmium::Way>(good_line))) {
+        std::printf("%s of a linestring created after a failed create_linestring differs from what a fresh factory creates (left-over text of the abandoned geometry)\nARGV: textreuse\n", what); return 1; }
+    try { (void)used.create_polygon(buf.get<osmium::Way>(open_ring)); } catch (const std::exception&) {}
+    if (used.create_polygon(buf.get<osmium::Way>(ring)) != fresh.create_polygon(buf.get<osmium::Way>(ring))) {
+        std::printf("%s of a polygon created after a failed create_polygon differs from what a fresh factory creates\nARGV: textreuse\n", what); return 1; }
+    try { (void)used.create_polygon(buf.get<osmium::Way>(open_ring)); } catch (const std::exception&) {}
+    if (used.create_linestring(buf.get<osmium::Way>(good_line)) != fresh.create_linestring(buf.get<osmium::Way>(good_line))) {
+        std::printf("%s of a linestring created after a failed create_polygon differs from what a fresh factory creates\nARGV: textreuse\n", what); return 1; }
+    return 0;
+}
+static int check_text_reuse() { return check_text_reuse_with<osmium::geom::WKTFactory<>>("WKT") || check_text_reuse_with<osmium::geom::GeoJSONFactory<>>("GeoJSON"); }
+
 int main(int argc, char** argv) {
+    if (argc > 1 && std::string(argv[1]) == "textreuse") return check_text_reuse();
     if (argc > 1 && std::string(argv[1]) == "wkbreuse") return check_wkb_reuse();
     unsigned seed = argc > 2 ? unsigned(std::atoll(argv[2])) : 1; std::mt19937_64 rng(seed);
     std::string only = argc > 3 ? argv[3] : "";
@@ -98,6 +122,7 @@ int main(int argc, char** argv) {
         for (int i = 0; i < 20000; ++i) if (check_linestring(rng)) return 1;
         if (check_multipolygon()) return 1; }
     if (only.empty() || only.find("WKB") != std::string::npos || only.find("wkb") != std::string::npos) if (check_wkb_reuse()) return 1;
+    if (only.empty() || only.find("WKT") != std::string::npos || only.find("GeoJSON") != std::string::npos) if (check_text_reuse()) return 1;
     if (only.empty() || only.find("double") != std::string::npos) if (check_double2string(rng)) return 1;
     std::printf("search: no disagreement found\n"); return 0;
 }
